@@ -102,15 +102,15 @@ pub struct Verdict {
 }
 
 impl Verdict {
-    fn bump(&mut self, k: &str) {
+    pub fn bump(&mut self, k: &str) {
         *self.stats.entry(k.to_string()).or_insert(0) += 1;
     }
 
-    fn add(&mut self, k: &str, n: u64) {
+    pub fn add(&mut self, k: &str, n: u64) {
         *self.stats.entry(k.to_string()).or_insert(0) += n;
     }
 
-    fn fail(&mut self, class: &str, at: usize, detail: String) {
+    pub fn fail(&mut self, class: &str, at: usize, detail: String) {
         if self.class.is_none() {
             self.class = Some(class.to_string());
             self.at = at;
